@@ -84,6 +84,35 @@ theorem scan_spec (c : Cfg) (s : State) (n ρ a : Nat) (ha : a < c.W)
       · intro hnone
         rw [hlf, hs.notFound hnone]
 
+theorem scan_none_down (c : Cfg) (s : State) (n ρ a : Nat) (ha : a < c.W)
+    (h : (scan c s n ρ a).1 = none) : ∀ m, m < n → up s ((a + m) % c.W) = false := by
+  induction n generalizing ρ a with
+  | zero => intro m hm; omega
+  | succ n ih =>
+    unfold scan at h
+    by_cases hu : up s a = true
+    · simp [hu] at h
+    · have hu' : up s a = false := by simpa using hu
+      simp only [hu', Bool.false_eq_true, if_false] at h
+      intro m hm
+      cases m with
+      | zero => simpa [Nat.mod_eq_of_lt ha] using hu'
+      | succ m =>
+        have := ih (adv c ρ a).1 (adv c ρ a).2 (adv_lt c ρ a ha) h m (by omega)
+        rw [adv_cyc c ρ a ha, Nat.mod_add_mod] at this
+        rw [show a + (m + 1) = a + 1 + m by omega]
+        exact this
+
+theorem scan_none_all_down (c : Cfg) (s : State) (ρ a : Nat) (ha : a < c.W)
+    (h : (scan c s c.W ρ a).1 = none) : ∀ w, w < c.W → up s w = false := by
+  intro w hw
+  have key := scan_none_down c s c.W ρ a ha h
+  by_cases hge : a ≤ w
+  · have := key (w - a) (by omega)
+    rwa [show a + (w - a) = w by omega, Nat.mod_eq_of_lt hw] at this
+  · have := key (w + c.W - a) (by omega)
+    rwa [show a + (w + c.W - a) = w + c.W by omega, Nat.add_mod_right, Nat.mod_eq_of_lt hw] at this
+
 /-! ## the invariant -/
 
 /-- Ghost state: dispatch history (owner of every task index), round counter of the dispatch pointer,
@@ -126,6 +155,35 @@ structure MidI (c : Cfg) (s : State) (g : Ghost) (ex : Option Nat) : Prop where
   rq : ∀ w, w < c.W → RChain c g.h w (g.arr w) (s.resQ.filter (fun r => r.w == w)) ∧
     g.arr w + (s.resQ.filter (fun r => r.w == w)).length = min (g.tk w) (bOf c w + 1)
   rqw : ∀ r ∈ s.resQ, r.w < c.W
+
+/-- Task `i` is a *witness*: not yet consumed, live, and either a data task or an end-of-shard task whose
+notice has not arrived — i.e. it will still trigger a `_try_put_index`. -/
+def Wit (c : Cfg) (s : State) (g : Ghost) (i : Nat) : Prop :=
+  s.rcvdIdx ≤ i ∧ ∃ w, g.h[i]? = some w ∧
+    ((g.h.take i).count w < bOf c w ∨ ((g.h.take i).count w = bOf c w ∧ g.arr w ≤ bOf c w))
+
+/-- While some worker is still expected to work there is a witness (so the epoch cannot end early). -/
+def LiveI (c : Cfg) (s : State) (g : Ghost) : Prop :=
+  (∃ v, v < c.W ∧ up s v = true) → ∃ i, Wit c s g i
+
+theorem exists_seq (h : List Nat) (w j : Nat) (hj : j < h.count w) :
+    ∃ i, h[i]? = some w ∧ (h.take i).count w = j := by
+  induction h using snoc_induction with
+  | nil => simp at hj
+  | snoc h v ih =>
+    rw [List.count_append, List.count_singleton] at hj
+    by_cases hlt : j < h.count w
+    · obtain ⟨i, h1, h2⟩ := ih hlt
+      exact ⟨i, getElem?_snoc_of_some h v w i h1, by rw [take_snoc_of_some h v w i h1]; exact h2⟩
+    · have hvw : (v == w) = true := by
+        by_cases hh : (v == w) = true
+        · exact hh
+        · simp only [hh, Bool.false_eq_true, if_false] at hj; omega
+      have hv : v = w := by simpa using hvw
+      simp only [hvw, if_true] at hj
+      refine ⟨h.length, by simp [hv], ?_⟩
+      rw [List.take_left' rfl]
+      omega
 
 theorem taskIdxs_append (a b : List Msg) : taskIdxs (a ++ b) = taskIdxs a ++ taskIdxs b := by
   induction a with
@@ -180,17 +238,22 @@ theorem tryPut_iter (c : Cfg) (s : State) (ρ : Nat) (hit : c.iterable = true) (
 theorem MidI_tryPut (c : Cfg) (s : State) (g : Ghost) (ex : Option Nat) (hit : c.iterable = true)
     (hio : c.inOrder = true) (h : MidI c s g ex) :
     ∃ g', MidI c (tryPut c s) g' ex ∧ g'.arr = g.arr ∧ g'.tk = g.tk ∧
-      (g'.h = g.h ∨ ∃ v, g'.h = g.h ++ [v]) := by
+      (g'.h = g.h ∨ ∃ v, g'.h = g.h ++ [v]) ∧ LiveI c (tryPut c s) g' := by
   have hdn : ∀ u, u < c.W → up s u = false → bOf c u < turns g.rho s.cyc u := by
     intro u hu hd; have := h.ptrDn u hu hd; omega
   have hs := scan_spec c s c.W g.rho s.cyc h.cyc hdn
   rw [tryPut_iter c s g.rho hit hio h.cyc]
-  generalize scan c s c.W g.rho s.cyc = res at hs
+  generalize hres : scan c s c.W g.rho s.cyc = res at hs
   obtain ⟨f, ρ', a'⟩ := res
   cases f with
   | none =>
     simp only
-    refine ⟨{ g with rho := ρ' }, ?_, rfl, rfl, Or.inl rfl⟩
+    have hall := scan_none_all_down c s g.rho s.cyc h.cyc (by rw [hres])
+    refine ⟨{ g with rho := ρ' }, ?_, rfl, rfl, Or.inl rfl, ?_⟩
+    rotate_left
+    · rintro ⟨v, hv, hvu⟩
+      have hvu' : up s v = true := hvu
+      rw [hall v hv] at hvu'; cases hvu'
     constructor
     · exact h.hlen
     · exact hs.lt
@@ -220,7 +283,25 @@ theorem MidI_tryPut (c : Cfg) (s : State) (g : Ghost) (ex : Option Nat) (hit : c
   | some v =>
     obtain ⟨hv, hvu, hvt, hvl⟩ := hs.found v rfl
     simp only at hvt hvl ⊢
-    refine ⟨{ g with h := g.h ++ [v], rho := ρ' }, ?_, rfl, rfl, Or.inr ⟨v, rfl⟩⟩
+    refine ⟨{ g with h := g.h ++ [v], rho := ρ' }, ?_, rfl, rfl, Or.inr ⟨v, rfl⟩, ?_⟩
+    rotate_left
+    · intro _
+      have harr : g.arr v ≤ bOf c v := (h.st v hv).mp hvu
+      have hrs : s.rcvdIdx ≤ g.h.length := by rw [h.hlen]; have := h.len; omega
+      by_cases hlive : g.h.count v ≤ bOf c v
+      · refine ⟨g.h.length, by simp [dispatchTo]; exact hrs, v, by simp, ?_⟩
+        simp only [List.take_left' rfl]
+        rcases Nat.lt_or_ge (g.h.count v) (bOf c v) with hh | hh
+        · exact Or.inl hh
+        · exact Or.inr ⟨by omega, harr⟩
+      · obtain ⟨i, hi1, hi2⟩ := exists_seq g.h v (bOf c v) (by omega)
+        have hge : s.rcvdIdx ≤ i := by
+          rcases Nat.lt_or_ge i s.rcvdIdx with hh | hh
+          · rcases h.cons i v hh hi1 with h1 | h1 <;> omega
+          · exact hh
+        refine ⟨i, by simp [dispatchTo]; exact hge, v, getElem?_snoc_of_some _ _ _ _ hi1, Or.inr ⟨?_, harr⟩⟩
+        simp only
+        rw [take_snoc_of_some _ _ _ _ hi1]; exact hi2
     have hup : ∀ w, up (dispatchTo c s v a') w = up s w := fun _ => rfl
     have hcv : g.h.count v = turns g.rho s.cyc v := h.ptrUp v hv hvu
     obtain ⟨kv, hkv⟩ : ∃ kv, s.workers[v]? = some kv :=
